@@ -945,3 +945,53 @@ c19_rule = ("14 failing operations (every error class; also modulo by zero, non-
             "with a reassigned parameter, in a loop body, inside a generator, inside a generator of a generator, in a top-level generator, in the body while a generator is suspended); "
             "the parsed report must have the specified class, an opcode of the failing operation's family, the specified operand values in order, and for the failing context and "
             "each ancestor the active calls innermost first with the names used at the call sites and the current parameter values. non-trivial = failure below top level")
+
+
+# =============================================================== C18: frames are isolated under any growth (program level)
+
+def c18_families(tier, seed, ids=None):
+    ids = ids or Ids()
+    rnd = random.Random(seed)
+    ss = []
+    widths = [1, 5, 127, 128, 129, 130, 200, 260] if tier == "thorough" else [5, 128, 130, 200]
+    for n in widths:
+        for ngen in (0, 1, 2, 3):
+            for prefix in ("none", "small-loop-same-stmt", "deep-recursion", "pushes"):
+                vs = ["w" + "".join(chr(97 + int(c)) for c in str(i)) for i in range(n)]
+                body = [assign(v, bin_("+", N("p"), I(i % 7))) for i, v in enumerate(vs)]
+                loopbody = assign("s", bin_("+", N("s"), bin_("+", N(vs[-1]), N(vs[0]))))
+                if ngen == 0:
+                    body += [assign("s", I(0)), assign("s", bin_("+", N(vs[-1]), N(vs[0])))]
+                else:
+                    gens_ = [call("fromto", I(0), N(vs[-1]))] + [call("fromto", I(1), I(4))] * (ngen - 1)
+                    body += [assign("s", I(0)), fr(["i", "j", "k"][:ngen], gens_, loopbody)]
+                body += [assign(vs[0], bin_("+", N(vs[0]), I(100))), lst([N("s"), N(vs[0]), N(vs[-1]), N("p")])]
+                items = [DEEP, assign("wide", fn(["p"], block(body)))]
+                c = call("wide", I(2))
+                if prefix == "none":
+                    items += [c]
+                elif prefix == "small-loop-same-stmt":
+                    items += [block([fr(["q"], [call("fromto", I(0), I(2))], N("q")), c])]
+                elif prefix == "deep-recursion":
+                    items += [call("deep", I(300)), c]
+                else:
+                    items += [bin_("+", lst([I(k) for k in range(140)]), lst([c]))]
+                items += [c, assign("rr", fn(["d"], ife(bin_("==", N("d"), I(0)), c, call("rr", bin_("-", N("d"), I(1)))))), call("rr", I(3)), call("rr", I(140))]
+                ss.append(mk(ids, items, {"width": n, "generators": ngen, "prefix": prefix}))
+    if tier == "quick":
+        ss = rnd.sample(ss, 40)
+    out = [("wide frames x suspended generators x stack-growing prefixes x call depth", ss, ("value", "residue"))]
+    deep = []
+    for d in ([300, 1000] if tier == "quick" else [1000, 2000, 3000]):
+        deep.append(mk(ids, [assign("cnt", fn(["n"], ife(bin_("==", N("n"), I(0)), I(0), bin_("+", I(1), call("cnt", bin_("-", N("n"), I(1))))))), call("cnt", I(d)),
+                             assign("keep", fn(["n", "v"], ife(bin_("==", N("n"), I(0)), N("v"), block([assign("loc", bin_("+", N("v"), I(1))), assign("r", call("keep", bin_("-", N("n"), I(1)), N("v"))), bin_("-", bin_("+", N("r"), N("loc")), N("loc"))])))),
+                             call("keep", I(d), I(7)), I(1)], {"recursion_depth": d}))
+    out.append(("recursion depth limited only by memory", deep, ("value", "residue")))
+    return out
+
+
+def c18_nontrivial(v):
+    return True
+
+
+c18_rule = ""
